@@ -297,6 +297,35 @@ def exits(ck, P):
               "fewer BufError exits than the input-exhaustion and output-failure sites", where(fn))
 
 
+def entry_reset(ck, P, R="CUT/back-entry-reset"):
+    """inflateBack starts every call from a clean decoder: before the mode loop is entered the mode is set to Type, the
+    last-block flag is cleared and the window is declared empty (zlib: `state->mode = TYPE; state->last = 0;
+    state->whave = 0;`).  History surviving from an earlier call on the same stream makes a too-far distance of the new
+    stream resolve to bytes of the old one."""
+    fn = P.fn(BACK)
+    if not ck.anchor("fn back", fn):
+        return
+    ck.use_fn(fn)
+    sws = fn.enum_switches("inflate::Mode", 10)
+    if not ck.anchor("mode switch of back()", len(sws) == 1, where(fn)):
+        return
+    sw = sws[0]
+    clear = {c.bb for c in fn.live_calls(r"window::Window::clear$")}
+    leak = not clear or flow.reaches_avoiding(fn, [0], [sw], cut_blocks=clear)
+    ck.decide(not leak, R, "back:window-clear", "Window::clear on every path into the mode loop",
+              "back() can enter its mode loop without having emptied the window (Window::clear): history of a previous inflateBack call on "
+              "the same stream stays addressable, so a distance reaching before the new stream's first byte copies old bytes instead of "
+              "being rejected", where(fn))
+    modes = {bi for bi, fp, root, rv, st in fn.field_writes() if fp[-1:] == ("mode",) and fn.enum_const(rv) and "Type" in str(P.variant_name(*fn.enum_const(rv)) if not isinstance(fn.enum_const(rv)[1], str) else fn.enum_const(rv)[1])}
+    leak2 = not modes or flow.reaches_avoiding(fn, [0], [sw], cut_blocks=modes)
+    ck.decide(not leak2, R, "back:mode-type", "mode = Type on every path into the mode loop",
+              "back() can enter its mode loop without resetting the mode to Type", where(fn))
+    lasts = {c.bb for c in fn.live_calls(r"Flags::update$")}
+    leak3 = not lasts or flow.reaches_avoiding(fn, [0], [sw], cut_blocks=lasts)
+    ck.decide(not leak3, R, "back:last-clear", "last-block flag cleared on every path into the mode loop",
+              "back() can enter its mode loop without clearing the last-block flag", where(fn))
+
+
 def run(ck):
     P = prog("K1")
     ck.configs.add("K1")
@@ -321,11 +350,14 @@ def run(ck):
     ck.decide(tabs(BACK) == tabs(decoders.DISPATCH) and len(tabs(BACK)) == 3, "SIB/inflate-table-args", "back~dispatch", "same (type, root bits) triples",
               "back() builds tables with %s, dispatch with %s" % (tabs(BACK), tabs(decoders.DISPATCH)))
     raw_guards(ck, P)
+    entry_reset(ck, P)
     # the window has no padding: the fast loop of inflateBack may only run (and continue) with the full margins
     from . import c02
     c02.guard_calls(ck, P, only={"fast-entry@back"})
     c02.loop_backedge_guard(ck, P, only={c02.FAST_BACK})
     c02.fast_refill(ck, P, "GUARD/fast-bit-budget", fns=(c02.FAST_BACK,))
+    from .. import refwrites
+    ck.floor("SIB/ref-writes", refwrites.check(ck, P, "SIB/ref-writes", only={"infback.c:inflateBack"}), 14)
     ck.floor("WHO/overlap-safe-copy", decoders.overlap_safe(ck, P, "WHO/overlap-safe-copy", r"inflate::writer::Writer::copy_match_back$"), 1)
     who(ck, P)
     init_const(ck, P)
